@@ -10,7 +10,7 @@ ERRNAMES = {}
 
 def symbol_category(b):
     if b == END: return 'end'
-    if b == NA: return 'non-ascii-char'
+    if scanex.is_na(b): return 'non-ascii-char'
     if b == BAD: return 'ill-formed-utf8'
     if b >= 0x80: return 'byte>=0x80'
     if b == 0x22: return 'dquote'
@@ -57,7 +57,10 @@ def alphabet(tus_fns, extra_consts=(), utf8=False):
     reps, class_of, classes = scanex.byte_classes(consts, masks, LP.PREDICATE_SETS)
     syms = list(reps)
     if utf8:
-        syms = [r for r in reps if r < 0x80] + [NA, BAD]
+        # a non-ASCII character is NA + (class of the low byte of its code point): code that narrows the code point
+        # to a char sees that byte; everything else only sees 'greater than 0x7f'
+        lows, _, _ = scanex.byte_classes(consts, set(), (), lo=0, hi=255)
+        syms = [r for r in reps if r < 0x80] + [NA + l for l in lows] + [BAD]
     return syms, class_of, classes
 
 
